@@ -175,6 +175,24 @@ func ValueOfSexp(s *Sexp) ugo.Object {
 		return r
 	case "fn":
 		return getFn(string(atomBytes(s.List[1])))
+	// host-side objects in unusual but representable states
+	case "optr0":
+		return &ugo.ObjectPtr{}
+	case "optr":
+		var o ugo.Object = ugo.Int(7)
+		return &ugo.ObjectPtr{Value: &o}
+	case "sm0":
+		return &ugo.SyncMap{}
+	case "fn0":
+		return &ugo.Function{Name: "novalue"}
+	case "bfn":
+		return ugo.BuiltinObjects[ugo.BuiltinLen]
+	case "nilerr":
+		return (*ugo.Error)(nil)
+	case "nilrt":
+		return (*ugo.RuntimeError)(nil)
+	case "rt0":
+		return &ugo.RuntimeError{}
 	}
 	panic("bad value sexp: " + s.String())
 }
